@@ -323,15 +323,40 @@ Proof. rewrite fold_left_app. reflexivity. Qed.
 Lemma removelast_cons2 {A} (x y : A) l : removelast (x :: y :: l) = x :: removelast (y :: l).
 Proof. reflexivity. Qed.
 
-Lemma dp_loop_fidelity : forall td n fs rest done st xl prev fuel,
+(* no field of the list starts a repeating group of the application dictionary, whatever the MsgType in the header *)
+Definition ad_no_group_start (ad : option app_dict) (fs : list (Z * bytes)) : Prop :=
+  forall hdr t, In t (map fst fs) -> is_num_in_group_field hdr [t] ad = false.
+
+Lemma ad_no_group_start_none : forall fs, ad_no_group_start None fs.
+Proof. intros fs hdr t _. reflexivity. Qed.
+
+Lemma ad_find_in : forall mt d defs, ad_find mt d = Some defs -> exists k, In (k, defs) d.
+Proof.
+  induction d as [|[k fs] d IH]; intros defs H; cbn in H; [discriminate|].
+  destruct (beq_bytes k mt); [inversion H; subst; exists k; left; reflexivity|].
+  destruct (IH defs H) as [k' Hk]. exists k'. right. exact Hk.
+Qed.
+
+(* a checkable sufficient condition: no message definition of the dictionary declares a tag of the message as NumInGroup *)
+Lemma ad_no_group_start_some : forall d fs,
+  (forall mt defs t, In (mt, defs) d -> In t (map fst fs) -> gd_walk defs [t] = []) -> ad_no_group_start (Some d) fs.
+Proof.
+  intros d fs H hdr t Ht. unfold is_num_in_group_field, get_group_fields.
+  destruct (fm_get_bytes hdr TAG_MSG_TYPE); try reflexivity.
+  destruct (ad_find a d) as [defs|] eqn:E; [|reflexivity].
+  destruct (ad_find_in _ _ _ E) as [k Hk]. rewrite (H k defs t Hk Ht). reflexivity.
+Qed.
+
+Lemma dp_loop_fidelity : forall td ad n fs rest done st xl prev fuel,
+  ad_no_group_start ad rest ->
   dp_rel td n fs done rest st -> (length fs <= n)%nat -> (length rest <= fuel)%nat -> rest <> [] ->
   Forall (fun f => c11_tag_ok (fst f) = true) rest ->
   c11_values_ok prev rest = true ->
   match prev with Some k => xl = k /\ 0 < k | None => xl <= 0 end ->
   fst (last rest (0, [])) = TAG_CHECK_SUM -> Forall (fun f => fst f <> TAG_CHECK_SUM) (removelast rest) ->
-  exists st', dp_loop fuel td None st xl = Ok st' /\ dp_final td n fs st'.
+  exists st', dp_loop fuel td ad st xl = Ok st' /\ dp_final td n fs st'.
 Proof.
-  intros td n fs. induction rest as [|f rest' IH]; intros done st xl prev fuel R Hn Hfuel Hne Htags Hvals Hxl Hlast Hmid; [congruence|].
+  intros td ad n fs. induction rest as [|f rest' IH]; intros done st xl prev fuel Hng R Hn Hfuel Hne Htags Hvals Hxl Hlast Hmid; [congruence|].
   destruct fuel as [|fuel]; [cbn in Hfuel; lia|].
   destruct R as [Hsplit Hraw Hfields Hfi Hh Hb Ht Hmraw].
   assert (Hld : (length done < n)%nat) by (rewrite Hsplit, app_length in Hn; cbn [length] in Hn; lia).
@@ -355,7 +380,7 @@ Proof.
   { unfold step, h', b', t', addH, addB, addT. change (tv_tag (init_of f)) with (fst f).
     destruct (is_header_field (fst f) td); [eexists; split; [reflexivity|]; repeat split; cbn; assumption|].
     destruct (is_trailer_field (fst f) td); [eexists; split; [reflexivity|]; repeat split; cbn; assumption|].
-    cbn [is_num_in_group_field get_group_fields]. eexists; split; [reflexivity|]; repeat split; cbn; assumption. }
+    rewrite (Hng _ (fst f) (or_introl eq_refl)). eexists; split; [reflexivity|]; repeat split; cbn; assumption. }
   destruct Hstep as (st2 & Estep & F1 & F2 & F3 & F4 & F5 & F6 & F7 & F8). rewrite Estep. cbn [bind].
   rewrite F1, F2. unfold fields', fi. rewrite arr_get_map_at. cbn [bind]. change (tv_tag (init_of f)) with (fst f).
   assert (Efields' : fields' = map init_of (done ++ [f]) ++ repeat tv_zero (n - length (done ++ [f]))).
@@ -391,6 +416,7 @@ Proof.
       - eexists. split; [reflexivity|]. split; [|exact Hvals]. destruct (xl >? 0) eqn:Ex; lia. }
     destruct Hnext as (xl' & Exl & Hxl' & Hvals'). rewrite Exl. cbn [bind].
     apply (IH (done ++ [f]) _ xl' prev' fuel).
+    + intros hdr0' t0 Hin0. apply Hng. right. exact Hin0.
     + constructor; cbn [mp_set_field_index mp_msg mp_raw_bytes mp_field_index].
       * rewrite Hsplit, <- app_assoc. reflexivity.
       * exact G4.
@@ -477,9 +503,9 @@ Lemma dp_fields_length_zero : forall k, dp_fields_length (repeat tv_zero k) = 0.
 Proof. unfold dp_fields_length. induction k as [|k IH]; cbn [repeat fold_right]; [reflexivity|]. rewrite IH. reflexivity. Qed.
 
 (* a framed message is parsed up to the final BodyLength comparison, and the message then holds exactly the wire fields *)
-Lemma do_parsing_framed : forall fs td, c11_framed fs = true ->
+Lemma do_parsing_framed : forall fs td ad, c11_framed fs = true -> ad_no_group_start ad fs ->
   exists m, dp_final td (count_byte SOH (ser fs)) fs (mk_mp m [] 0 0 [] false false) /\
-    do_parsing (ser fs) td None =
+    do_parsing (ser fs) td ad =
       match fm_get_int (m_header m) TAG_BODY_LENGTH with
       | Ok bl => if c11_body_length fs =? bl then Ok m else Err E_BODY_LENGTH
       | Err _ => Err E_BODY_LENGTH_FIELD
@@ -487,7 +513,7 @@ Lemma do_parsing_framed : forall fs td, c11_framed fs = true ->
       | OutOfFuel => OutOfFuel
       end.
 Proof.
-  intros fs td H. destruct (c11_framed_shape fs H) as (v8 & v9 & v35 & mid & v10 & Efs & Htags & Hvals & Hmid).
+  intros fs td ad H Hng. destruct (c11_framed_shape fs H) as (v8 & v9 & v35 & mid & v10 & Efs & Htags & Hvals & Hmid).
   set (n := count_byte SOH (ser fs)). assert (Hn : (length fs <= n)%nat) by apply count_soh_ser_ge.
   assert (Hn4 : (4 <= n)%nat) by (rewrite Efs in Hn; cbn [length] in Hn; rewrite app_length in Hn; cbn in Hn; lia).
   unfold do_parsing. fold n. change TAG_BEGIN_STRING with 8. change TAG_MSG_TYPE with 35. change TAG_BODY_LENGTH with 9.
@@ -513,7 +539,9 @@ Proof.
   destruct (dp_leading_fidelity td n fs [(8, v8); (9, v9)] (35, v35) _ _ R2 Hn Ht35 Hs35 eq_refl) as (st3 & E3 & R3). cbn [fst] in E3.
   unfold dp_leading in E3. cbn [mp_set_field_index mp_msg mp_field_index mp_raw_bytes] in E3. rewrite E3. cbn [bind].
   cbn [length app] in R3.
-  destruct (dp_loop_fidelity td n fs (mid ++ [(10, v10)]) [(8, v8); (9, v9); (35, v35)] _ 0 None (S n) R3 Hn) as (st4 & E4 & F4).
+  assert (Hng' : ad_no_group_start ad (mid ++ [(10, v10)])).
+  { intros hdr0' t0 Hin0. apply Hng. rewrite Efs. right; right; right. exact Hin0. }
+  destruct (dp_loop_fidelity td ad n fs (mid ++ [(10, v10)]) [(8, v8); (9, v9); (35, v35)] _ 0 None (S n) Hng' R3 Hn) as (st4 & E4 & F4).
   { rewrite Efs in Hn. cbn [length] in Hn. lia. }
   { destruct mid; discriminate. }
   { exact Htags. }
@@ -611,13 +639,13 @@ Qed.
 
 (* C11: a well-formed wire message is accepted; raw bytes unchanged; the field array is the wire's fields in order
    (then zero entries if XMLData held SOH bytes); every field is found in the section of its tag, last occurrence wins *)
-Theorem parse_fidelity : forall fs td, c11_wire_ok fs = true ->
-  exists m, do_parsing (ser fs) td None = Ok m /\ m_raw m = Some (ser fs) /\
+Theorem parse_fidelity : forall fs td ad, c11_wire_ok fs = true -> ad_no_group_start ad fs ->
+  exists m, do_parsing (ser fs) td ad = Ok m /\ m_raw m = Some (ser fs) /\
     m_fields m = map init_of fs ++ repeat tv_zero (count_byte SOH (ser fs) - length fs) /\
     forall t v, c11_last_value fs t = Some v -> fm_get_bytes (parsed_section td t m) t = Ok v.
 Proof.
-  intros fs td H. unfold c11_wire_ok in H. apply andb_true_iff in H as [Hfr H9].
-  destruct (do_parsing_framed fs td Hfr) as (m & Hfin & Hdo).
+  intros fs td ad H Hng. unfold c11_wire_ok in H. apply andb_true_iff in H as [Hfr H9].
+  destruct (do_parsing_framed fs td ad Hfr Hng) as (m & Hfin & Hdo).
   destruct (c11_framed_shape fs Hfr) as (v8 & v9 & v35 & mid & v10 & Efs & _ & _ & Hmid).
   rewrite Efs in H9. apply andb_true_iff in H9 as [Hv9 Hbound]. rewrite <- Efs in Hv9, Hbound.
   assert (Ev9 : v9 = itoa (c11_body_length fs)).
@@ -635,11 +663,12 @@ Proof.
 Qed.
 
 (* C11: a framed message whose BodyLength field does not announce the byte count of its fields is rejected *)
-Theorem parse_rejects_wrong_body_length : forall fs td f1 v9 rest, c11_framed fs = true -> fs = f1 :: (9, v9) :: rest ->
-  c11_declared v9 <> Some (c11_body_length fs) -> exists e, do_parsing (ser fs) td None = Err e.
+Theorem parse_rejects_wrong_body_length : forall fs td ad f1 v9 rest, c11_framed fs = true -> ad_no_group_start ad fs ->
+  fs = f1 :: (9, v9) :: rest ->
+  c11_declared v9 <> Some (c11_body_length fs) -> exists e, do_parsing (ser fs) td ad = Err e.
 Proof.
-  intros fs td f1 v9' rest Hfr Efs' Hdecl.
-  destruct (do_parsing_framed fs td Hfr) as (m & Hfin & Hdo).
+  intros fs td ad f1 v9' rest Hfr Hng Efs' Hdecl.
+  destruct (do_parsing_framed fs td ad Hfr Hng) as (m & Hfin & Hdo).
   destruct (c11_framed_shape fs Hfr) as (v8 & v9 & v35 & mid & v10 & Efs & _ & _ & Hmid).
   assert (v9' = v9) by (rewrite Efs in Efs'; inversion Efs'; reflexivity). subst v9'.
   pose proof (final_retrieval td _ fs m TAG_BODY_LENGTH v9 Hfin) as Hr. rewrite Efs in Hr at 1.
